@@ -11,6 +11,7 @@ LEAN_HELPERS = ['MV.Lemmas.Midi', 'MV.Lemmas.Window', 'MV.Lemmas.Asc', 'MV.Model
                 'MV.Model.Rel', 'MV.Model.Basic']
 DRIVERS = ['C07']
 GEN = ['Tables', 'Library', 'Instruments']
+SRC_TIE = ['SrcMidiUtil']   # py2lean source images of number_to_channel / voice_to_channel / tracks_to_instruments / get_track_list proved equal to the model (MV/Props/TieSrcMidiUtil.lean)
 RULE = ('stream file (500 quick / 5000 thorough): random scores (1-4 chords, 1-5 parts drawn from instrument sets with '
         'several parts of one instrument, drums, unknown names; rests/continuations anywhere; durations on and off the '
         '480-tick grid; dynamics; a few notes with tempo/pedal attributes) x tempo x time signature (10% malformed '
@@ -26,7 +27,10 @@ TRUSTED = ['hand-written model of midi_utils.py / tracks_to_instruments (MV/Mode
            'pandas stable multi-key sort and groupby-diff, mido byte encoding: exercised through the written file, '
            'which is read back with harness/smf.py (own SMF parser), not proved',
            'mido range checks (data bytes 0..127, channel 0..15, tempo < 2^24, time-signature denominator a power '
-           'of two) are modelled as ValueError branches']
+           'of two) are modelled as ValueError branches',
+           'source tie SrcMidiUtil: the spec bindings of harness/srcgroups/SrcMidiUtil.py (str.split as a scan for the leftmost '
+           'non-overlapping separators, enumerate, dict.get, list(dict.fromkeys(..)) as first-appearance order, the dict '
+           '{track: program} as its association list)']
 ASSUMPTIONS = ['durations with denominators <= 1000 and > 0', 'integer tempo (bpm)',
                'ornament tags are not rendered by the model (C16)',
                'tick positions are claimed exact only when every onset and end is a whole number of ticks; elsewhere '
@@ -421,6 +425,9 @@ def correspondence(ctx):
             cases.append({'line': sx('program', part), 'impl': py_res(lambda: int(tracks_to_instruments([part])[0][0])),
                           'input': {'part': part}, 'bucket': 'program', 'nontrivial': True})
     ctx.compare('small', 'C07', cases)
+    # kernel-level streams of the source tie (DESIGN §9.6): real function vs model, real function vs generated source image
+    import srctie
+    srctie.run(ctx, SRC_TIE)
     from importlib.metadata import version
     ctx.note('installed: ' + ', '.join(f'{m} {version(m)}' for m in ('pandas', 'mido', 'numpy')))
 
